@@ -36,7 +36,7 @@ class ToolingError(Exception):
 # Where a case's files live is no part of any contract: the server-level harnesses put every case into a directory whose
 # name is plain, holds a blank, a non-ASCII word, brackets or braces (what ordinary folders are called).  The style is a
 # function of the case's content (not of its position or id), so that a replay gets the same directory.
-DIRSTYLE_COMMANDS = ("script", "workspace", "srvinclude", "pubdiag")
+DIRSTYLE_COMMANDS = ("script", "workspace", "srvinclude", "pubdiag", "concur", "stress", "diag", "docsync", "semtok", "settings", "total")
 
 
 def with_dirstyle(command, c):
